@@ -262,7 +262,7 @@ class C22:
     LEVEL = "exploration"
     NO_PIN = True   # no baton threads here: let the OS scheduler place the workers
     TIERS = {
-        "quick": {"runs": 60000, "budget_s": 45, "chunk": 200, "determinism_runs": 48},
+        "quick": {"runs": 120000, "budget_s": 45, "chunk": 200, "determinism_runs": 48},
         "thorough": {"runs": 2000000, "budget_s": 600, "chunk": 400, "determinism_runs": 256,
                      "minimise_s": 90},
     }
